@@ -564,7 +564,8 @@ theorem unmarshal_bad (ts : List GTok) (eof : Bool) (hv : decValid ts = true) (h
     exact absurd hb (bad_not_mem_gtoks x)
 
 /-- CanonicalJSON on raw decoder tokens: accepted exactly when they are the tokens of one
-    complete value followed by the end of input (and no surviving string has U+FFFD) -/
+    complete value followed by the end of input (and every surviving string is a sequence of
+    scalar values, which is always so for what the decoder yields) -/
 theorem canonRaw_total (ts : List RTok) (eof : Bool) (hv : decValid (ts.map cook) = true) :
     (∀ cs, canonRaw ts eof = .ok cs ↔ (eof = true ∧ ∃ x, ts = rtoks x ∧ canonChars x = some cs)) ∧
     canonRaw ts eof ≠ .nilval := by
